@@ -108,7 +108,7 @@ def rule_detach_gate(ctx: RuleContext, p: Program, rid: str) -> None:
         ok = gate_at is not None and not writes
         ctx.check(ok, rid, f'{c.module.name.split(".", 1)[1]}:{c.name}.detach', 'override of the gate',
                   (f'{c.name}.detach overrides the gate and ' + ('never reaches RawModel.detach (super().detach())' if gate_at is None else
-                   f'changes state before the gate decides (`{writes[0]}`): when detach() refuses -- the node lives inside a larger document -- the change has '
+                   f'changes state before the gate decides (`{(writes or [""])[0]}`): when detach() refuses -- the node lives inside a larger document -- the change has '
                    f'already happened, so a refused assignment / insert leaves the document\'s own node altered')), o.where,
                   note='no state is written before super().detach()')
     ctx.stats['detach_overrides'] = n_over
